@@ -25,10 +25,8 @@ SKIPMAGIC = bytes.fromhex("502a4d18")
 
 # R sites at which libzstd's ONE-SHOT path is documented to be more permissive than the format (see docs/C03.md)
 PERMISSIVE = {
-    342: "P1 block regenerates more than Block_Maximum_Size (sequence): one-shot decoder bounds by capacity only",
-    361: "P1 block regenerates more than Block_Maximum_Size (trailing literals): one-shot decoder bounds by capacity only",
-    422: "P1 raw block larger than Block_Maximum_Size: one-shot decoder bounds by capacity only",
-    424: "P1 RLE block larger than Block_Maximum_Size: one-shot decoder bounds by capacity only",
+    # (P1 - the one-shot decoder bounded what a block regenerates by the capacity only, sites 342 / 361 / 422 / 424 - is gone since fix 4bb0500:
+    #  ZSTD_decompressFrame applies Block_Maximum_Size like the streaming and buffer-less paths; an acceptance there is a disagreement again)
     213: "P2 Huffman weight 12: libzstd accepts table log 12 (HUF_TABLELOG_MAX), the format text says 11",
     216: "P2 Huffman table log 12: libzstd accepts table log 12 (HUF_TABLELOG_MAX), the format text says 11",
     220: "P3 Huffman literal stream without end mark: the 4-stream fast decoder (HUF_initFastDStream) tolerates a zero last byte",
@@ -532,6 +530,17 @@ def make_cases(ctx, rng, cd, witnesses, gdict):
     # (5) legacy frames v0.5 - v0.7 (sanitizer only)
     leg = legacy_frames()
     ctx.notes["legacy_frames"] = len(leg)
+    # round 2: legacy frames whose raw / RLE blocks exceed 128 KiB (the 19-bit size field allows 524287): the one-shot decoders accept them,
+    # so the inspectors must count them (fix f23db1d) - and, in assert-enabled builds, must not trip over a bound that is no multiple of 128 KiB
+    for v, hdr in ((5, "00"), (6, "00"), (7, "0050")):
+        mg = bytes([0x20 + v, 0xb5, 0x2f, 0xfd]) + bytes.fromhex(hdr)
+        for n in (131072, 131073, 200000, 398000, 524287):
+            if n in (131073, 200000):
+                raw = mg + bytes([0x40 | (n >> 16), (n >> 8) & 255, n & 255]) + bytes(rng.randrange(256) for _ in range(64)) * (n // 64) + bytes(n % 64) + bytes.fromhex("c00000")
+                add("L", raw, "legacy-oversize-raw", cap=n + 16)
+            rle = mg + bytes([0x80 | (n >> 16), (n >> 8) & 255, n & 255, 0x41]) + bytes.fromhex("c00000")
+            add("L", rle, "legacy-oversize-rle", cap=n + 16)
+    add("L", bytes.fromhex("27b52ffd007aa612b07cc93b12"), "legacy-oversize-rle", cap=400000)
     for fr in leg:
         add("L", fr, "legacy-valid", cap=4096)
         # round 2: legacy frames decoded with a dictionary (any bytes, any length: shorter than a magic number, shorter than the
@@ -783,6 +792,24 @@ def build_msan_harness(defs):
         shutil.rmtree(odir, ignore_errors=True)
         core.log("built harness c03_fuzz (msan, clang) in %.1fs" % (time.time() - t0))
     return exe
+
+
+def debug_pass(ctx, defs, cases):
+    """thorough tier: every case once more through an ASan build with -DDEBUGLEVEL=1 (assert() enabled): an assertion of lib/ that hostile
+    bytes (or a legal call history of the harness) can falsify aborts the process in such builds - a call that does not return."""
+    exe = core.build_harness("c03_fuzz", ["c03_fuzz.c"], variant="asan", extra_defs=["-DDEBUGLEVEL=1"], extra_flags=list(defs))
+    sub = [c for c in cases if c["cmd"] in ("F", "L", "D", "B", "K", "C")]
+    t0 = time.time()
+    out, crashes = run_lines(exe, [case_line(c) for c in sub] + ["A a"])
+    core.log("assert-enabled asan harness: %d cases in %.1fs (%d aborts)" % (len(sub), time.time() - t0, len(crashes)))
+    byid = {c["id"]: c for c in sub}
+    for line, rc, err in crashes:
+        cid = line.split(" ")[1] if " " in line else "?"
+        c = byid.get(cid)
+        summ = " ".join(re.findall(r"([^\n]*Assertion[^\n]*|ERROR: AddressSanitizer[^\n]*|SUMMARY:[^\n]*|runtime error:[^\n]*)", err)[:3]) or err[-300:]
+        ctx.violation(dict(kind="fuzz", line=line[:1200000], origin=c["origin"] if c else "probe", rc=rc, variant="asan-debuglevel1", report=err[-2500:]),
+                      what="decoder harness (ASan build with -DDEBUGLEVEL=1) aborted on a %s input (rc=%d): %s" % (c["origin"] if c else "O1 probe", rc, summ[:400]))
+    ctx.notes["assert_enabled_variant"] = dict(cases=len(sub), aborts=len(crashes))
 
 
 def msan_key(c, err):
@@ -1442,9 +1469,14 @@ def run(ctx):
             t = line.split(" ")
             c = dict(id=t[1], cmd=t[0], flags=t[2], dict=codec.unhx(t[3]) if t[3] != "-" else None, data=codec.unhx(t[4]),
                      cap=int(t[5]), seed=int(t[6]), origin=rp.get("origin", "replay"), base=None)
-            out, crashes = run_lines(exe, [line], nproc=1)
-            core.log("impl :", {k: v[:300] for k, v in out.items()}, [x[1:] for x in crashes])
-            evaluate(ctx, cd, model_exe, [c], out, crashes, npmax, "asan")
+            vexe, vname = exe, "asan"
+            if rp.get("variant") == "msan":
+                vexe, vname = (build_msan_harness(defs) or exe), "msan"
+            elif rp.get("variant") == "asan-debuglevel1":
+                vexe, vname = core.build_harness("c03_fuzz", ["c03_fuzz.c"], variant="asan", extra_defs=["-DDEBUGLEVEL=1"], extra_flags=list(defs)), "asan-debuglevel1"
+            out, crashes = run_lines(vexe, [line], nproc=1)
+            core.log("impl (%s):" % vname, {k: v[:300] for k, v in out.items()}, [x[1:] for x in crashes])
+            evaluate(ctx, cd, model_exe, [c], out, crashes, npmax, "asan" if vname == "asan" else vname)
         ctx.count(("replay",), nontrivial=True)
         ctx.proof_verdict(None)
         return
@@ -1492,6 +1524,8 @@ def run(ctx):
                 ctx.violation(replay_of(c, result=out[c["id"]][:400]),
                               what="witness %s: the buffered streaming decoder no longer enforces Block_Maximum_Size" % c["origin"][8:])
 
+    if not ctx.quick or os.environ.get("C03_ASSERT_VARIANT"):        # (the variable lets the quick case set go through it: used by the mutation tests)
+        debug_pass(ctx, defs, cases)
     if not ctx.quick:
         # other decoder build variants: same inputs, same oracles except the sanitizer; outputs must equal the asan build's
         vtol = {}
@@ -1510,6 +1544,12 @@ def run(ctx):
                 kb = fb.get("one", fb.get("blk"))
                 if ka != kb:
                     m = getattr(ctx, "c03_R", {}).get(c["id"])
+                    if m is None and c["cmd"] == "B" and len(c["data"]) < (1 << 21):
+                        # a bare block body (round 2): the reference decoder judges it wrapped into a frame (window 128 KiB, one last compressed block)
+                        n = len(c["data"])
+                        hv = 1 | (2 << 1) | (n << 3)
+                        wrapped = MAGIC + bytes([0x00, 0x38, hv & 255, (hv >> 8) & 255, hv >> 16]) + c["data"]
+                        m = cd.model([(c["id"], "nostrict,w=4294967296", None, wrapped)]).get(c["id"])
                     if m is not None and m[0] == "ERR" and m[2] in PERMISSIVE:
                         # an invalid frame at one of the documented leniencies (P1-P4): which Huffman decoder (X1 / X2 / asm) notices
                         # a literal stream that is not consumed exactly differs by construction; both stay inside their buffers
